@@ -289,4 +289,146 @@ theorem glyphAt_affected (h : WF I ms rank) (rel : SkipRel I ms skip ms') (n : S
 
 end
 
+/-! ### glyphs the filter leaves alone -/
+
+theorem ptsOf_congr (n : String) : ∀ (ms ms' : Masters) (locs : List Q), ms'.length = ms.length →
+    (∀ (i : Nat) m m', ms[i]? = some m → ms'[i]? = some m' → m'.get? n = m.get? n) →
+    (ms'.zip locs).filterMap (fun (m, l) => (m.get? n).map (fun g => (l, g))) =
+      (ms.zip locs).filterMap (fun (m, l) => (m.get? n).map (fun g => (l, g)))
+  | [], [], _, _, _ => rfl
+  | [], _ :: _, _, h, _ => by simp at h
+  | _ :: _, [], _, h, _ => by simp at h
+  | _ :: _, _ :: _, [], _, _ => by simp
+  | m :: ms, m' :: ms', l :: locs, hl, h => by
+    have h0 := h 0 m m' rfl rfl
+    have ih := ptsOf_congr n ms ms' locs (by simpa using hl) (fun i a b ha hb => h (i + 1) a b (by simpa using ha) (by simpa using hb))
+    simp only [zip_cons_cons, filterMap_cons, h0, ih]
+
+theorem glyphAt_same {I : Inst} {ms ms' : Masters} {skip : List String} (rel : SkipRel I ms skip ms') (n : String)
+    (hsk : skip.contains n = false) (hna : ¬ Affected ms skip n) (t : Q) : glyphAt I ms' n t = glyphAt I ms n t := by
+  have hp := ptsOf_congr n ms ms' I.locs rel.len (rel.same n hsk hna)
+  have hd : (ms'.getD I.defaultIdx []).get? n = (ms.getD I.defaultIdx []).get? n := by
+    by_cases hi : I.defaultIdx < ms.length
+    · have hi' : I.defaultIdx < ms'.length := by rw [rel.len]; exact hi
+      rw [List.getD_eq_getElem?_getD, List.getD_eq_getElem?_getD, List.getElem?_eq_getElem hi, List.getElem?_eq_getElem hi']
+      exact rel.same n hsk hna I.defaultIdx _ _ (List.getElem?_eq_getElem hi) (List.getElem?_eq_getElem hi')
+    · have hi' : ¬ I.defaultIdx < ms'.length := by rw [rel.len]; exact hi
+      rw [List.getD_eq_getElem?_getD, List.getD_eq_getElem?_getD, List.getElem?_eq_none (by omega), List.getElem?_eq_none (by omega)]
+  unfold glyphAt collectMasters
+  rw [hd]
+  simp only [hp]
+
+section
+variable {I : Inst} {ms ms' : Masters} {rank : String → Nat} {skip : List String}
+
+theorem withDrawn_pass (g : Glyph) : withDrawn g ⟨[], g.comps.map (fun k => ⟨k.base, Affine.id.compose k.t⟩)⟩ = g := by
+  obtain ⟨nm, w, ht, cs, ks, an⟩ := g
+  simp only [withDrawn, append_nil, Glyph.mk.injEq, true_and]
+  rw [List.map_congr_left (g := fun k => k) (fun k _ => by rw [Affine.id_compose])]
+  simp
+
+theorem decAt_unaffected (h : WF I ms rank) (n : String) (hna : ¬ Affected ms skip n) (t : Q) (ht : InHull I t)
+    (g : Glyph) (hg : glyphAt I ms n t = some g) : DecAt I ms skip n t g := by
+  refine ⟨g, instanceAt I ms t, 1, ⟨[], g.comps.map (fun k => ⟨k.base, Affine.id.compose k.t⟩)⟩, hg,
+    fun b _ => instanceAt_get I ms t b, ?_, (withDrawn_pass g).symm⟩
+  apply addComps_pass
+  intro k hk
+  obtain ⟨m, hm, g0, hg0, hsh⟩ := instance_like_master h t ht n g hg
+  obtain ⟨k0, hk0, he⟩ := mem_comps_of_sh hsh hk
+  rw [isIncluded_some, ← ksh_base he]
+  cases hc : skip.contains k0.base with
+  | false => rfl
+  | true => exact absurd ⟨g0, (mem_glyphsNamed _ _ _).mpr ⟨m, hm, hg0⟩, k0, hk0, hc⟩ hna
+
+theorem not_affected_of_absent (h : WF I ms rank) (n : String) (hd : (dflt I ms).get? n = none) :
+    ¬ Affected ms skip n := by
+  rintro ⟨g, hg, _⟩
+  obtain ⟨m, hm, hgm⟩ := (mem_glyphsNamed _ _ _).mp hg
+  have := h.defaultFull m hm n (by rw [hgm]; rfl)
+  rw [hd] at this
+  cases this
+
+/-- every non-skipped glyph of the family, at every location of the hull: after the filter it is the glyph with its
+    references to skipped glyphs replaced by their content *at that location* -/
+theorem glyphAt_skipRel (h : WF I ms rank) (rel : SkipRel I ms skip ms') (n : String) (hsk : skip.contains n = false)
+    (t : Q) (ht : InHull I t) (g : Glyph) (hg : glyphAt I ms n t = some g) :
+    ∃ g', glyphAt I ms' n t = some g' ∧ DecAt I ms skip n t g' := by
+  by_cases haf : Affected ms skip n
+  · cases hd : (dflt I ms).get? n with
+    | none => exact absurd haf (not_affected_of_absent h n hd)
+    | some d => exact glyphAt_affected h rel n hsk haf d hd t ht
+  · exact ⟨g, by rw [glyphAt_same rel n hsk haf]; exact hg, decAt_unaffected h n haf t ht g hg⟩
+
+theorem glyphAt_absent (h : WF I ms rank) (rel : SkipRel I ms skip ms') (n : String) (t : Q) (ht : InHull I t)
+    (hg : glyphAt I ms n t = none) : glyphAt I ms' n t = none := by
+  cases hsk : skip.contains n with
+  | true =>
+    apply glyphAt_none
+    unfold dflt
+    by_cases hi : I.defaultIdx < ms'.length
+    · rw [List.getD_eq_getElem?_getD, List.getElem?_eq_getElem hi]
+      exact rel.gone _ (List.getElem_mem hi) n hsk
+    · rw [List.getD_eq_getElem?_getD, List.getElem?_eq_none (by omega)]
+      rfl
+  | false =>
+    cases hd : (dflt I ms).get? n with
+    | none => rw [glyphAt_same rel n hsk (not_affected_of_absent h n hd)]; exact hg
+    | some d =>
+      obtain ⟨g, hg', _⟩ := glyphAt_sh h n d hd t ht
+      rw [hg] at hg'; cases hg'
+
+/-- at every location of the hull the instance of the filtered family is the instance of the family with the skipped
+    glyphs decomposed into their users and removed -/
+theorem skippedSet_instance (h : WF I ms rank) (rel : SkipRel I ms skip ms') (t : Q) (ht : InHull I t) :
+    SkippedSet skip (instanceAt I ms t) (instanceAt I ms' t) := by
+  constructor
+  · intro n hsk
+    rw [instanceAt_get]
+    apply glyphAt_none
+    unfold dflt
+    by_cases hi : I.defaultIdx < ms'.length
+    · rw [List.getD_eq_getElem?_getD, List.getElem?_eq_getElem hi]
+      exact rel.gone _ (List.getElem_mem hi) n hsk
+    · rw [List.getD_eq_getElem?_getD, List.getElem?_eq_none (by omega)]
+      rfl
+  · intro n hn
+    rw [instanceAt_get] at hn ⊢
+    exact glyphAt_absent h rel n t ht hn
+  · intro n g hsk hg
+    rw [instanceAt_get] at hg
+    obtain ⟨g', hg', g0, layer, fuel, d, hg0, hlayer, hc, rfl⟩ := glyphAt_skipRel h rel n hsk t ht g hg
+    rw [hg] at hg0
+    have := Option.some.inj hg0; subst this
+    refine ⟨fuel, d, ?_, by rw [instanceAt_get]; exact hg'⟩
+    rw [← (addComp_congr layer (instanceAt I ms t) true (some skip)
+      (fun b hb => by rw [instanceAt_get]; exact hlayer b hb) fuel).2]
+    exact hc
+
+/-- **the variable-font clause for every pair of families in the relation `SkipRel`** -/
+theorem vf_render_rel (h : WF I ms rank) (rel : SkipRel I ms skip ms') (n : String) (hsk : skip.contains n = false)
+    (t : Q) (ht : InHull I t) (f1 f2 : Nat) (hf1 : rank n < f1) (hf2 : rank n < f2) :
+    (renderAtF f2 I ms' t n).Perm (renderAtF f1 I ms t n) ∧ advanceAt I ms' t n = advanceAt I ms t n := by
+  unfold renderAtF advanceAt
+  cases hg : glyphAt I ms n t with
+  | none => rw [glyphAt_absent h rel n t ht hg]; exact ⟨Perm.refl _, rfl⟩
+  | some g =>
+    obtain ⟨g', hg', hdec⟩ := glyphAt_skipRel h rel n hsk t ht g hg
+    rw [hg']
+    dsimp only
+    have hgood := good_instance h t ht
+    have hset := skippedSet_instance h rel t ht
+    have hid : Affine.id.det ≠ 0 := by simp only [Affine.id, Affine.det]; grind
+    have p := render_skippedSet skip _ _ rank hgood hset (rank n) n g g' rfl hsk (by rw [instanceAt_get]; exact hg)
+      (by rw [instanceAt_get]; exact hg') Affine.id f2 hid hf2
+    refine ⟨?_, ?_⟩
+    · refine p.trans (Perm.of_eq ?_)
+      exact render_fuel _ rank hgood.ranked (rank n) g Affine.id f2 f1
+        (hgood.ranked n g (by rw [instanceAt_get]; exact hg)) hf2 hf1
+    · obtain ⟨g0, _, _, d, hg0, _, _, rfl⟩ := hdec
+      rw [hg] at hg0
+      rw [← Option.some.inj hg0]
+      rfl
+
+end
+
 end Ufo2ft.C13
